@@ -79,6 +79,42 @@ macro_rules! c20_range {
             $crate::reach!(sel == 1 && deq(&ld, &hd), "single-value range");
         });
     };
+    // concrete bounds, symbolic RNG stream: the range multiplication is a multiplication by a constant, so types above 16 bits are within reach
+    ($name:ident, $unw:expr, $T:ty, $D:ty, $N:expr, [$($lo:expr),*], [$($hi:expr),*]) => {
+        $crate::harness!($name, $unw, {
+            use $crate::util::*;
+            use rand::Rng;
+            use rand::distributions::{Distribution, Uniform};
+            use rand::distributions::uniform::{UniformSampler, SampleUniform};
+            const M: usize = $N + 1;
+            const S: bool = <$T as BN<$D, $N>>::SIGNED;
+            let ld: [$D; $N] = [$($lo),*];
+            let hd: [$D; $N] = [$($hi),*];
+            let (low, high) = (<$T as BN<$D, $N>>::mk(ld), <$T as BN<$D, $N>>::mk(hd));
+            let (xl, xh) = (XD::<$D, M>::from_val(&ld, S), XD::<$D, M>::from_val(&hd, S));
+            let c = xl.cmp(&xh);
+            let sel: u8 = $crate::nd::nd();
+            $crate::nd::assume(sel < 6);
+            let incl = sel % 2 == 1;
+            // exclusive forms need low < high, inclusive low <= high (anything else panics in rand / bnum by contract)
+            $crate::nd::assume(if incl { c != core::cmp::Ordering::Greater } else { c == core::cmp::Ordering::Less });
+            let mut rng = $crate::c20::SymRng::new(3);
+            let r: $T = match sel {
+                0 => rng.gen_range(low..high),
+                1 => rng.gen_range(low..=high),
+                2 => Uniform::new(low, high).sample(&mut rng),
+                3 => Uniform::new_inclusive(low, high).sample(&mut rng),
+                4 => <<$T as SampleUniform>::Sampler as UniformSampler>::sample_single(low, high, &mut rng),
+                _ => <<$T as SampleUniform>::Sampler as UniformSampler>::sample_single_inclusive(low, high, &mut rng),
+            };
+            let xr = XD::<$D, M>::from_val(&r.dg(), S);
+            assert!(xr.cmp(&xl) != core::cmp::Ordering::Less, "result >= low");
+            let ch = xr.cmp(&xh);
+            assert!(if incl { ch != core::cmp::Ordering::Greater } else { ch == core::cmp::Ordering::Less }, "result within the upper bound");
+            $crate::reach!(sel == 0 && rng.calls >= 1, "gen_range");
+            $crate::reach!(sel == 5, "sample_single_inclusive");
+        });
+    };
 }
 
 /// unbiasedness: the accepted RNG words mapping to offset h form the first K words of the block of words whose
